@@ -92,6 +92,27 @@ Extension (round 8), BULK / INDIRECT REMOVAL FOLLOWED BY RE-USE.
     flavour 'bulk' (``gen_bulk_history``).  Counters ``bulk:*`` / monitors ``M.emptied``, ``M.after-emptied``
     have floors, among them clear / popitem-to-empty followed by re-use and by re-assignment of a former name
     for EVERY start kind (the object emptied is the start object itself, not a copy of it).
+
+Extension (round 9), TWO MORE CLASSES OF KEYS.
+(6) BLANK-LIKE CHARACTERS INSIDE FIELD NAMES: characters that Python's Unicode-aware ``\\s`` / str.isspace() call
+    white space but that the deb822 field-name grammar (anything but ':' ' ' \\t \\n \\r \\f \\v) accepts in a name.
+    BLANK_A (U+00A0, U+1680, U+2000..U+200A, U+202F, U+205F, U+3000, U+001F) takes part in everything, every
+    dump->parse route included.  BLANK_B (U+2028, U+2029, U+0085, U+001C, U+001D, U+001E) are line boundaries of
+    str.splitlines(): a paragraph TEXT given as one str is cut there by definition, so names holding them are only
+    driven through the routes that cut lines at \\n alone (bytes, byte / str line lists, binary file objects) -
+    established on the unchanged tree, enforced by ``case_in_domain``.  Every character occurs inside ('X\\xa0Vcs',
+    'Build\\x1fId'), at the start and at the end of a name, each name in 3 case spellings, next to the twin names
+    without the blank / with another blank (different fields) and names of blanks only (one spelling).  Same
+    histories, model and full observation as for every other name (flavours 'blank', 'blank-b';
+    ``special_enum_cases``, ``special_sort_cases``, ``special_bulk_enum_cases``, 'bulk-special' histories).
+(7) CASE VARIANTS OF DIFFERENT LENGTH: U+0130 (dotted capital I) lowers to TWO code points ('i' + U+0307), and
+    that spelling is its case variant under str.lower() and str.casefold() alike.  The judged class is widened from
+    "one-to-one pairs" (simple_case_name) to "lower() and casefold() induce the SAME equivalence on every spelling
+    the workload and the observation use" (``readings_agree``, checked at import time over all alphabets together):
+    K, K.lower(), K.upper(), K.swapcase(), K.lower().upper() address one field in every operation; 'X-id' (plain
+    i) is a different field.  Only the pairs on which the two readings DISAGREE (sharp s vs SS, final sigma) and
+    dotless i (a variant of I under upper() only) stay tolerated.  Flavour 'dotted' and the enumerations above.
+    The 'lines' routes now cut the text at \\n only (identical for every text of the older workloads).
 """
 import functools
 import io
@@ -99,6 +120,7 @@ import itertools
 import operator
 import os
 import random
+import re
 import unicodedata
 
 from .. import contracts, kmon
@@ -141,8 +163,8 @@ RULE = ('Histories = start state (empty / dict / pair list / parsed from str, by
         'start kinds (sort, copy, re-order / delete through variants, dump->parse, sort again, copies).  Counters '
         'uni:variant:<operation> (a PRESENT non-ASCII field addressed through a spelling different from the stored '
         'one, per operation kind and item/reference role), uni:copy:<route>, uni:cycle:<route>, uni:start:<kind>, '
-        'uni:sort:* all have floors.  (4) counted only, never judged: 18 pairs x 2 classes of the tolerated-'
-        'unspecified classes (sharp s / SS, dotted capital I, dotless i, final sigma): one field or two, recorded in '
+        'uni:sort:* all have floors.  (4) counted only, never judged: 14 pairs x 2 classes of the tolerated-'
+        'unspecified classes (sharp s / SS, dotless i, final sigma): one field or two, recorded in '
         'tolerated_unspecified_observed.  '
         '(5) BULK / INDIRECT REMOVAL FOLLOWED BY RE-USE: operations clear (d.clear()), popitem (d.popitem(), also on '
         'the empty mapping), reinit (other = d.copy() / type(d)(d) / Deb822Dict(d) / dict(d) / list(d.items()); '
@@ -163,11 +185,64 @@ RULE = ('Histories = start state (empty / dict / pair list / parsed from str, by
         'bulk:after-emptied:op:<kind>, bulk:reuse-former:<kind>:<same|variant>, bulk:<clear|popitem|pop|del>:'
         'reuse-former:origin-<start kind> and :reassign-former:origin-<start kind> (the emptied object is the start '
         'object itself), bulk:reinit:<route>, bulk:clear-then-update:<how>, bulk:ghost:* (object left behind observed '
-        'after the other one was emptied, both directions) and monitors M.emptied / M.after-emptied all have floors.')
+        'after the other one was emptied, both directions) and monitors M.emptied / M.after-emptied all have floors.  '
+        '(6) FIELD NAMES HOLDING BLANK-LIKE CHARACTERS that Python\'s Unicode-aware \\s / str.isspace() / split() / strip() treat '
+        'as white space but the field-name grammar accepts: class A = U+00A0, U+1680, U+2000..U+200A, U+202F, U+205F, '
+        'U+3000, U+001F (every route), class B = U+2028, U+2029, U+0085, U+001C, U+001D, U+001E (str.splitlines() boundaries: '
+        'only the routes that cut lines at \\n - bytes, byte / str line lists, iter_paragraphs(bytes), binary file '
+        'object, lazy wrapper over a bytes-parsed paragraph).  Every character inside (X<c>Vcs), at the start (<c>Lead) '
+        'and at the end (Trail<c>) of a name in 3 case spellings, Build<U+001F>Id, runs of two, two different blanks in a '
+        'row, both ends, names of blanks only (one spelling), next to their twins (XVcs, Lead, Trail, X-Vcs, BuildId ... '
+        'and the same stem with ANOTHER blank: different fields).  (7) CASE VARIANTS OF DIFFERENT LENGTH: 7 names with '
+        'U+0130, each in 3-4 spellings among them K.lower() (one code point longer per U+0130) and K.lower().upper() (I + '
+        'U+0307), stored in the short or in the long spelling, next to plain-i twins (X-id, I, istanbul: different '
+        'fields) and names sorting just below / above.  Both classes run through the SAME histories, model and full '
+        'observation as every other name: seeded "blank" / "blank-b" / "dotted" histories (<= 20 / 30 ops, all profiles '
+        'with dump->parse raised, 10 start kinds incl. iter_paragraphs(bytes), bytes line list, lazy wrapper over a '
+        'bytes-parsed paragraph, 10 dump->parse routes incl. binary / text file objects handed to the parser, all sort keys, all copy routes, update from dict / pairs / '
+        'Deb822Dict), all sequences of length <= 2 (quick) / <= 3 (thorough) over the 18-operation alphabet with a/b/c '
+        'replaced by 4 name maps (blank A, dotted, blank B, mixed) from 4 (quick) / 8 (thorough) start states, every sort '
+        'key x 2 / 12 fixed start orders x 4 start kinds, the bulk-removal enumeration over 2 (quick: half of the '
+        'start x removal pairs per seed parity) / 6 more name sets, and seeded "bulk-special" histories.  Counters '
+        '<blank|blankb|dotted>:variant:<operation> (a PRESENT field of the class addressed through a spelling different '
+        'from the stored one, per operation kind and item / reference role), dotted:lenvariant:<operation> (... through a '
+        'spelling of another LENGTH), dotted:fail:self-relative-lenvariant (order_before/after(K, K.lower()) rejected with '
+        'ValueError), dotted:assign-through-lenvariant-adds-no-field, <class>:start:<kind>, <class>:cycle:<route>, '
+        '<class>:copy:<route>, <class>:sort:*, <class>:clear / popitem / reinit, blank:parsed:U+XXXX and '
+        'blank:cycled:U+XXXX (a name holding exactly this character came out of the parser / went through dump->parse; '
+        'one counter per character), special:nontrivial and monitors M.blank / M.blankb / M.dotted all have floors.')
 ASSUMPTIONS = ['vp.models.cimap.CIListMap (list of pairs, keys folded with str.lower()) is the reference semantics of the statement',
-               'domain: field names without colon/whitespace that are ASCII or belong to the judged non-ASCII class '
-               'below; values that are valid ASCII Deb822 values without leading/trailing whitespace (value '
-               'round-tripping itself is C02/C08)',
+               'domain: field names that the field-name grammar of the unchanged tree accepts (non-empty, none of the '
+               'characters colon, space, \\t \\n \\r \\f \\v; not starting with #) and that are ASCII or belong to the judged '
+               'non-ASCII classes below; values that are valid ASCII Deb822 values without leading/trailing whitespace '
+               '(value round-tripping itself is C02/C08)',
+               'BLANK-LIKE CHARACTERS IN NAMES (round 9): "whitespace" in the grammar means exactly the six ASCII characters '
+               'above.  U+00A0, U+1680, U+2000..U+200A, U+202F, U+205F, U+3000 and U+001F are ordinary name characters on '
+               'every route (established on the unchanged tree: all of them, inside, at the start and at the end of a '
+               'name, round-trip through dump + parse from str, bytes, line lists, iter_paragraphs, file objects and the '
+               'lazy wrapper).  U+2028, U+2029, U+0085, U+001C, U+001D, U+001E are in addition line boundaries of '
+               'str.splitlines(): a paragraph text handed over as ONE str is cut into lines there (by the tree, and by '
+               'definition of the lines of a str), so a name holding one of them is judged only on the routes that cut at '
+               '\\n alone - bytes, fd-bytes, iter_paragraphs(bytes), byte line lists, str line lists cut by the caller, '
+               'the lazy wrapper over a bytes-parsed paragraph - which is where the unchanged tree round-trips them; '
+               'case_in_domain() skips any other combination (the generators never produce one).  Whether a str text '
+               'SHOULD keep such a name in one piece is not demanded either way',
+               'a list of lines is the caller\'s cut: the harness cuts the dump() text at \\n only (nl_lines; identical to '
+               'str.splitlines(True) for every text without the boundary characters above)',
+               'blank-like characters are caseless and are never folded, dropped, trimmed or unified: names that differ in '
+               'a blank (X<U+00A0>Vcs / XVcs / X-Vcs / X<U+2003>Vcs, <U+00A0>Lead / Lead, one blank / a run of two) are '
+               'DIFFERENT fields under every reading of "case-insensitive"',
+               'WIDENED JUDGED CLASS (round 9, readings_agree, enforced at import time over ALL spellings of ALL alphabets '
+               'together with their lower() / upper() / swapcase() forms, which is everything the workload and the '
+               'observation ever use): str.lower() and str.casefold() induce the SAME equivalence on them - no two '
+               'spellings are one field under one reading and two under the other.  One-to-one pairs and equal length are no '
+               'longer required: U+0130 and its lower() spelling i + U+0307 (casefold() gives the same two code points), and '
+               'I + U+0307 (= K.lower().upper()) are case variants of one name under both readings and are judged like any '
+               'other variants; the model still folds with str.lower().  An implementation that folds with str.upper() '
+               '(U+0130 stays, i + U+0307 becomes I + U+0307) or that compares lengths first is NOT inside either reading',
+               'plain-i twins: X-id / I / istanbul are different fields than X-<U+0130>d / <U+0130> / <U+0130>stanbul '
+               '(lower(), casefold() and upper() all keep them apart; a Turkic-tailored folding is not assumed and Python '
+               'has none); names are not normalised (i + U+0307 is not composed, U+2000 is not replaced by U+2002)',
                'JUDGED non-ASCII class (simple_case_name, enforced at import time for every spelling the workload or the '
                'observation uses): every character is the lower or upper member of a one-to-one case pair (single '
                'characters both ways, closed under lower()/upper()), str.casefold() equals str.lower() on it, whole-string '
@@ -175,10 +250,13 @@ ASSUMPTIONS = ['vp.models.cimap.CIListMap (list of pairs, keys folded with str.l
                'On this class lower(), upper()-then-lower() and casefold() all induce the same equivalence, so '
                '"case-insensitive" has one reading and the model folds with str.lower()',
                'TOLERATED-UNSPECIFIED (only counted, never judged, exceptions and K1/K2 reports included): names with '
-               'sharp s (\u00df / SS / \u1e9e), dotted capital I (\u0130), dotless i (\u0131), Greek final sigma '
-               '(\u03c2 / \u03c3 / \u03a3 at a word end) - lower() and casefold() legitimately differ there or the '
-               'mapping changes length / depends on context.  Established on the unchanged tree: it folds with '
-               'str.lower(), i.e. Stra\u00dfe/STRASSE, \u0130stanbul/istanbul, \u0131/I, \u03bf\u03b4\u03bf\u03c2/'
+               'sharp s (\u00df / SS / \u1e9e) and Greek final sigma (\u03c2 / \u03c3 / \u03a3 at a word end) - lower() and '
+               'casefold() DISAGREE on some pair of the spellings an observation of such a name uses (checked at import '
+               'time per class), or the conversion depends on context - and dotless i (\u0131), which lower() and casefold() '
+               'keep apart from I / i but upper() maps to I (whether it is a case variant of I is what the readings '
+               'disagree on).  The dotted capital I left this class in round 9 (see the widened judged class).  '
+               'Established on the unchanged tree: it folds with '
+               'str.lower(), i.e. Stra\u00dfe/STRASSE, \u0131/I, \u03bf\u03b4\u03bf\u03c2/'
                '\u03bf\u03b4\u03bf\u03c3 are two fields each, \u039f\u0394\u039f\u03a3/\u03bf\u03b4\u03bf\u03c2 and '
                'GRO\u1e9e/gro\u00df one field; an implementation folding with casefold() (tried: one field for all '
                'sharp-s and final-sigma pairs) is held as well',
@@ -263,16 +341,24 @@ MUST_REACH = ['debian.deb822:Deb822Dict.__setitem__', 'debian.deb822:Deb822Dict.
               'debian._util:LinkedList.remove_node', 'debian._util:_CaseInsensitiveString.__eq__']
 
 # total numbers of RANDOM histories per tier (the enumerated part comes on top)
-RANDOM_HISTORIES = {'quick': 5400, 'thorough': 300000}
+RANDOM_HISTORIES = {'quick': 4600, 'thorough': 285000}
 MAX_OPS = {'quick': 30, 'thorough': 40}
 # the two added flavours ('sortkeys', 'copies'): shorter histories, counts per tier
-FLAVOUR_HISTORIES = {'sortkeys': {'quick': 1200, 'thorough': 60000}, 'copies': {'quick': 1200, 'thorough': 60000}}
+FLAVOUR_HISTORIES = {'sortkeys': {'quick': 1100, 'thorough': 58000}, 'copies': {'quick': 1100, 'thorough': 58000}}
 FLAVOUR_MAX_OPS = 12
 # flavour 'unicode' (round 7): the classic generator over the non-ASCII alphabet
-UNI_HISTORIES = {'quick': 1400, 'thorough': 70000}
+UNI_HISTORIES = {'quick': 1300, 'thorough': 68000}
 UNI_MAX_OPS = {'quick': 22, 'thorough': 32}
 UNI_ENUM_LEN = {'quick': 2, 'thorough': 3}
 UNI_SORT_ORDERS = {'quick': 3, 'thorough': 24}
+# round 9: flavours 'blank' / 'blank-b' / 'dotted' (the classic generator over the new alphabets)
+SPECIAL_HISTORIES = {'blank': {'quick': 600, 'thorough': 30000}, 'blank-b': {'quick': 320, 'thorough': 14000},
+                     'dotted': {'quick': 480, 'thorough': 24000}}
+SPECIAL_MAX_OPS = {'quick': 20, 'thorough': 30}
+SPECIAL_ENUM_LEN = {'quick': 2, 'thorough': 3}
+SPECIAL_SORT_ORDERS = {'quick': 2, 'thorough': 12}
+SPECIAL_BULK_HISTORIES = {'quick': 200, 'thorough': 12000}
+SPECIAL_BULK_ENUM_ROUNDS = {'quick': 2, 'thorough': 6}
 ENUM_LEN = {'quick': 3, 'thorough': 4}
 
 FLOORS = {
@@ -449,12 +535,97 @@ UNI_ALPHABET = UNI_NAMES + UNI_ASCII_MIX
 TOLERATED = {
     'sharp-s': [('X-Straße', 'X-STRASSE'), ('X-Straße', 'x-strasse'), ('X-STRASSE', 'x-straße'), ('X-Maß', 'X-MASS'),
                 ('X-GROẞ', 'x-groß')],
-    'dotted-capital-i': [('X-İstanbul', 'x-istanbul'), ('X-İstanbul', 'x-i\u0307stanbul'), ('X-İ', 'X-I'),
-                         ('x-i', 'X-İ')],
-    'dotless-i': [('X-ısı', 'X-ISI'), ('x-ı', 'x-i'), ('X-I', 'x-ı'), ('X-ISI', 'x-ısı')],
+    'dotless-i': [('X-\u0131s\u0131', 'X-ISI'), ('x-\u0131', 'x-i'), ('X-I', 'x-\u0131'), ('X-ISI', 'x-\u0131s\u0131')],
     'final-sigma': [('X-ΟΔΟΣ', 'x-οδος'), ('X-ΟΔΟΣ', 'x-οδοσ'), ('x-οδος', 'x-οδοσ'), ('x-οδοσ', 'X-ΟΔΟΣ'),
                     ('X-Σ', 'x-ς')],
 }
+# (round 9: the dotted capital I left this table - 'K' and 'K.lower()' are variants under lower() and casefold() alike
+# and are judged, see DOTTED_NAMES.  What stays: sharp s and final sigma, where the two readings disagree on some pair of
+# the spellings an observation uses, and dotless i, which is a variant of 'I' under upper() only.)
+
+# ---- round 9 (6): blank-like characters the field-name grammar accepts ------------------------------------------
+# The unchanged tree's grammar for a field name is "one or more characters other than ':' ' ' \t \n \r \f \v".  Python's
+# Unicode-aware \s / str.isspace() / str.split() / str.strip() know more blanks than that; all of them are legal inside
+# a name.  BLANK_B are, in addition, line boundaries of str.splitlines(): a text handed over as ONE str is cut there
+# (by the library and by any other reader of "lines of text"), so such names are driven through \n-cutting routes only.
+BLANK_A = '\xa0\u1680' + ''.join(chr(_c) for _c in range(0x2000, 0x200b)) + '\u202f\u205f\u3000\x1f'
+BLANK_B = '\u2028\u2029\x85\x1c\x1d\x1e'
+BLANK_CHARS = BLANK_A + BLANK_B
+
+
+def _case3(s):
+    return (s, s.lower(), s.upper())
+
+
+def _blank_groups(chars):
+    """Every character inside, at the start and at the end of a name, each name in three case spellings."""
+    out = []
+    for c in chars:
+        out += [_case3('X%sVcs' % c), _case3('%sLead' % c), _case3('Trail%s' % c)]
+    return out
+
+
+BLANK_A_NAMES = _blank_groups(BLANK_A) + [
+    ('Build\x1fId', 'build\x1fid', 'BUILD\x1fID', 'bUILD\x1fiD'),
+    ('Two\xa0\xa0Gaps', 'two\xa0\xa0gaps', 'TWO\xa0\xa0GAPS'),          # a run of two: not the same name as one
+    ('Two\xa0Gaps', 'two\xa0gaps', 'TWO\xa0GAPS'),
+    ('Mix\u2003\xa0Ed', 'mix\u2003\xa0ed', 'MIX\u2003\xa0ED'),         # two different blanks in a row
+    ('\xa0Both\xa0', '\xa0both\xa0', '\xa0BOTH\xa0'),                   # at both ends
+    ('\u2007',), ('\u2009\u200a',), ('\x1f',)]                          # blanks only: one spelling each
+BLANK_B_NAMES = _blank_groups(BLANK_B) + [('Sec\x1cRet', 'sec\x1cret', 'SEC\x1cRET'), ('\u2028',)]
+# twins: the same letters without the blank / with an ASCII separator.  DIFFERENT fields under every reading (case
+# folding does not touch, drop, trim or unify blanks).
+BLANK_TWINS = [('XVcs', 'xvcs', 'XVCS'), ('Lead', 'lead', 'LEAD'), ('Trail', 'trail', 'TRAIL'),
+               ('X-Vcs', 'x-vcs', 'X-VCS'), ('BuildId', 'buildid', 'BUILDID'), ('TwoGaps', 'twogaps', 'TWOGAPS'),
+               ('Both', 'both', 'BOTH')]
+
+# ---- round 9 (7): case variants of different LENGTH ----------------------------------------------------------------
+# U+0130 is the one character whose str.lower() is longer than itself ('i' + U+0307 COMBINING DOT ABOVE); casefold()
+# gives the same two code points.  K.lower().upper() is 'I' + U+0307 (again another spelling, same length as the
+# lower one).  All of them fold to one string under lower() and under casefold().
+DOTTED_NAMES = [('X-\u0130d', 'x-i\u0307d', 'X-\u0130D', 'X-I\u0307D'),
+                ('\u0130', 'i\u0307', 'I\u0307'),
+                ('\u0130stanbul', 'i\u0307stanbul', '\u0130STANBUL', 'I\u0307STANBUL'),
+                ('x-vcs-i\u0307', 'X-Vcs-\u0130', 'X-VCS-\u0130', 'X-VCS-I\u0307'),        # stored in the LONG spelling
+                ('D\u0130\u0130', 'di\u0307i\u0307', 'd\u0130i\u0307', 'DI\u0307\u0130'),  # two of them: +2, +1
+                ('X\xa0\u0130d', 'x\xa0i\u0307d', 'X\xa0\u0130D'),                         # both new classes at once
+                ('X-\u0130\xe9', 'x-i\u0307\xe9', 'X-\u0130\xc9')]
+# neighbours: plain-i twins (DIFFERENT fields: 'i' is not 'i' + U+0307) and names sorting just below / above
+DOTTED_MIX = [('X-id', 'x-id', 'X-ID', 'x-ID'), ('I', 'i'), ('istanbul', 'Istanbul', 'ISTANBUL'),
+              ('x-Hd', 'X-HD', 'x-hd'), ('X-jd', 'x-JD', 'X-JD'), ('a', 'A'), ('Foo', 'FOO', 'foo', 'fOO')]
+SPECIAL_ALPHABET = BLANK_A_NAMES + BLANK_B_NAMES + BLANK_TWINS + DOTTED_NAMES + DOTTED_MIX
+
+
+def readings_agree(names):
+    """True when str.lower() and str.casefold() induce the SAME equivalence on `names` (the widened judged class:
+    no pair of them is one field under one reading and two fields under the other)."""
+    lo = [s.lower() for s in names]
+    cf = [s.casefold() for s in names]
+    return len(set(lo)) == len(set(cf)) == len(set(zip(lo, cf)))
+
+
+_NAME_CLASSES = {}
+
+
+def name_classes(k):
+    """Which of the round-9 classes a spelling belongs to (evidence counters only): 'blank' (holds a BLANK_A or
+    BLANK_B character), 'blankb' (holds a BLANK_B character), 'dotted' (holds U+0130 or a dotted i / I)."""
+    c = _NAME_CLASSES.get(k)
+    if c is None:
+        c = ()
+        if not (k.isascii() and k.isalnum()):   # cheap way out for many names
+            if any(x in BLANK_CHARS for x in k):
+                c += ('blank',)
+            if any(x in BLANK_B for x in k):
+                c += ('blankb',)
+            if '\u0130' in k or '\u0307' in k:
+                c += ('dotted',)
+        _NAME_CLASSES[k] = c
+    return c
+
+
+def blank_chars_of(keys):
+    return sorted(set(x for k in keys for x in k if x in BLANK_CHARS))
 
 
 def simple_case_name(s):
@@ -493,6 +664,48 @@ def _check_alphabets():
         for a, b in pairs:
             if simple_case_name(a) and simple_case_name(b):
                 raise RuntimeError('C09 tolerated pair %r/%r is inside the judged class' % (a, b))
+    # ---- round 9: blank-like characters.  Each must be what the class says it is on THIS Python: a blank for the
+    # Unicode-aware predicates, outside the grammar's excluded set, caseless, a str.splitlines() boundary exactly when
+    # it is listed in BLANK_B, and never a boundary of bytes.splitlines() on its UTF-8 form.
+    for c in BLANK_CHARS:
+        if not (c.isspace() and re.match(r'\s', c) and not ('a%sb' % c).split() == ['a%sb' % c]
+                and c not in ': \t\n\r\f\v' and c.lower() == c.upper() == c.casefold() == c):
+            raise RuntimeError('C09 alphabet: U+%04X is not a caseless Unicode blank outside the grammar' % ord(c))
+        if (len(('a%sb' % c).splitlines()) == 2) != (c in BLANK_B):
+            raise RuntimeError('C09 alphabet: U+%04X is in the wrong BLANK_A / BLANK_B class' % ord(c))
+        if len(('a%sb' % c).encode('utf-8').splitlines()) != 1:
+            raise RuntimeError('C09 alphabet: U+%04X cuts a UTF-8 byte line' % ord(c))
+    # ---- round 9: the widened judged class.  Over ALL spellings the workload and the observation can use together
+    # (every spelling of every alphabet, its lower / upper / swapcase forms) lower() and casefold() must induce the
+    # same equivalence: then "case-insensitive" still has one reading and the model may fold with str.lower().
+    universe = set()
+    for table in (SPECIAL_ALPHABET, UNI_ALPHABET, SORT_NAMES) + tuple(NAMES.values()):
+        for g in table:
+            for sp in g:
+                universe.update((sp, sp.lower(), sp.upper(), sp.swapcase()))
+    if not readings_agree(sorted(universe)):
+        raise RuntimeError('C09 alphabet: lower() and casefold() disagree on some pair of spellings')
+    seen = {}
+    for g in SPECIAL_ALPHABET:
+        for sp in g:
+            if sp.lower() != g[0].lower() or sp.casefold() != g[0].casefold():
+                raise RuntimeError('C09 alphabet: %r is not a case variant of %r' % (sp, g[0]))
+            if ':' in sp or any(x in ' \t\n\r\f\v' for x in sp) or not sp:
+                raise RuntimeError('C09 alphabet: %r is outside the field-name grammar' % sp)
+        if seen.setdefault(g[0].lower(), g) != g:
+            raise RuntimeError('C09 alphabet: two special groups fold to %r' % g[0].lower())
+    for g in DOTTED_NAMES:
+        if len(set(len(sp) for sp in g)) < 2:
+            raise RuntimeError('C09 alphabet: %r has no spellings of different length' % (g,))
+    # a tolerated class must be GENUINELY ambiguous: lower() and casefold() disagree on some pair of the spellings an
+    # observation of its names would use (context-dependent final sigma keeps its unambiguous pairs with it); dotless
+    # i is the documented exception (lower() / casefold() say "two fields", upper() says "one")
+    for cls, pairs in TOLERATED.items():
+        if cls != 'dotless-i' and all(readings_agree([a, b, a.lower(), b.lower(), a.upper(), b.upper(), a.swapcase(),
+                                                      b.swapcase()]) for a, b in pairs):
+            raise RuntimeError('C09 tolerated class %r is unambiguous: it belongs to the judged class' % cls)
+        if cls == 'dotless-i' and not all(a.upper() == b.upper() and a.lower() != b.lower() for a, b in pairs):
+            raise RuntimeError('C09 tolerated class dotless-i: a pair is not "one field under upper() only"')
 
 
 _check_alphabets()
@@ -568,6 +781,13 @@ SORT_KEYS.update(STORED_KEY_SORT_KEYS)
 MODEL_SORT_KEYS = dict(SORT_KEYS)          # the SAME functions, applied by the model to plain str spellings
 MODEL_SORT_KEYS['default'] = lambda s: s.lower()
 CYCLES = ('str', 'bytes', 'lines', 'iter', 'fd-bytes', 'fd-text')
+# round 9: more routes, and which ones hand the text over as ONE str (the str is cut by str.splitlines(), whose
+# boundaries include the BLANK_B characters: names holding one of those are not driven through these)
+SPECIAL_FLAVOURS = ('blank', 'blank-b', 'dotted')
+SPECIAL_CYCLES = CYCLES + ('iter-bytes', 'lines-bytes', 'file-bytes', 'file-text')
+STR_CYCLES = ('str', 'iter', 'fd-text', 'file-text')      # (file-text: a text file object cuts lines its own way)
+STR_START_KINDS = ('parsed-str', 'iter', 'lazy')
+SPECIAL_CYCLES_B = tuple(c for c in SPECIAL_CYCLES if c not in STR_CYCLES)
 
 
 for _tier in FLOORS:
@@ -621,6 +841,16 @@ def _group(names, key):
         if g[0].lower() == lk:
             return g
     return (key, key.upper(), key.lower())
+
+
+def _distinct_groups(groups):
+    """Drop later groups that fold to the same name as an earlier one."""
+    out, seen = [], set()
+    for g in groups:
+        if g[0].lower() not in seen:
+            seen.add(g[0].lower())
+            out.append(g)
+    return out
 
 
 def _pick(r, m, names, want):
@@ -742,6 +972,18 @@ def gen_start(r, names, cls, flavour='classic'):
         flavour = 'classic'               # same start states as the classic histories, other alphabet
         if cls == 'Deb822':
             kinds = dict(kinds, **{'parsed-bytes': 15, 'lazy': 14})
+    elif flavour in SPECIAL_FLAVOURS:
+        # round 9: more parsed starts (a name with a blank-like character must first of all survive the parser), by
+        # every route; names holding a str.splitlines() boundary only by the routes that cut at \n
+        bytes_only = flavour == 'blank-b'
+        flavour = 'classic'
+        if cls == 'Deb822':
+            kinds = {'empty': 8, 'dict': 16, 'parsed-str': 15, 'parsed-bytes': 15, 'parsed-lines': 10, 'iter': 8,
+                     'lazy': 12, 'iter-bytes': 6, 'lazy-bytes': 6, 'parsed-lines-bytes': 5}
+        else:
+            kinds = {'empty': 15, 'dict': 25, 'pairs': 30, 'lazy': 15, 'lazy-bytes': 15}
+        if bytes_only:
+            kinds = dict((k, (w * 2 if 'bytes' in k else w)) for k, w in kinds.items() if k not in STR_START_KINDS)
     if flavour != 'classic':
         kinds = dict(kinds, empty=4)
     kind = _weighted(r, kinds)
@@ -761,7 +1003,7 @@ def gen_start(r, names, cls, flavour='classic'):
         seen.add(k)
         pairs.append([k, _value(r, 900 + i)])
     st = {'kind': kind, 'pairs': pairs}
-    if kind.startswith('parsed') or kind in ('iter', 'lazy'):
+    if kind.startswith('parsed') or kind.startswith('iter') or kind.startswith('lazy'):
         st['sep'] = r.choice([': ', ': ', ':', ':\t', ':  '])
         st['lead'] = r.choice(['', '', '', '\n', '# comment\n', '\n\n'])
     return st
@@ -807,20 +1049,55 @@ def gen_history(r, tier, flavour='classic'):
         if r.random() < 0.6:
             names += r.sample(UNI_ASCII_MIX, r.choice([1, 1, 2]))
         r.shuffle(names)
+    elif flavour in ('blank', 'blank-b'):
+        # names with blank-like characters, often next to their twins (same letters without the blank / with another
+        # blank at the same place: different fields) and now and then next to a name of the other new class
+        pool = BLANK_A_NAMES if flavour == 'blank' else BLANK_B_NAMES
+        names = r.sample(pool, r.choice([1, 2, 2, 3, 3, 4, 5]))
+        if flavour == 'blank-b' and r.random() < 0.5:
+            names += r.sample(BLANK_A_NAMES, r.choice([1, 2]))
+        if r.random() < 0.45:
+            # the same stem with ANOTHER blank at the same place (collapsing / unifying blanks would merge them)
+            g = r.choice(names)
+            c = [x for x in g[0] if x in BLANK_CHARS]
+            if c and len(g) == 3:
+                other = r.choice([x for x in (BLANK_A if flavour == 'blank' else BLANK_CHARS) if x != c[0]])
+                names.append(_case3(g[0].replace(c[0], other)))
+        if r.random() < 0.6:
+            names += r.sample(BLANK_TWINS, r.choice([1, 1, 2, 3]))
+        if r.random() < 0.15:
+            names.append(r.choice(DOTTED_NAMES))
+        if r.random() < 0.2:
+            names.append(r.choice(UNI_ALPHABET))
+        names = _distinct_groups(names)
+        r.shuffle(names)
+    elif flavour == 'dotted':
+        names = r.sample(DOTTED_NAMES, r.choice([1, 1, 2, 2, 3, 4]))
+        if r.random() < 0.7:
+            names += r.sample(DOTTED_MIX, r.choice([1, 2, 2, 3]))
+        if r.random() < 0.2:
+            names.append(r.choice(BLANK_A_NAMES))
+        if r.random() < 0.2:
+            names.append(r.choice(UNI_NAMES))
+        names = _distinct_groups(names)
+        r.shuffle(names)
     else:
         allnames = SORT_NAMES if r.random() < 0.5 else NAMES[tier]
         names = r.sample(allnames, r.choice([2, 3, 4, 5, min(7, len(allnames))]))
+    special = flavour in SPECIAL_FLAVOURS
     aimed = flavour in ('sortkeys', 'copies')
     cls = cls_start = 'Deb822' if r.random() < 0.85 else 'Deb822Dict'
     start = gen_start(r, names, cls, flavour)
     m = CIListMap(start['pairs'])
     if flavour == 'classic':
         profile = PROFILES[r.choice(['balanced', 'balanced', 'small', 'reorder', 'reorder', 'grow'])]
-    elif flavour == 'unicode':
+    elif flavour == 'unicode' or special:
         profile = dict(PROFILES[r.choice(['balanced', 'balanced', 'small', 'reorder', 'reorder', 'grow', 'sortkeys',
                                           'copies'])])
         for k in ('get', 'in', 'pop', 'setdefault', 'update'):
             profile[k] += 3                    # the rarer operation kinds must meet non-ASCII variants as well
+        if special:
+            profile['cycle'] += 6 if flavour != 'dotted' else 3     # dump -> parse is where a blank in a name can get lost
     else:
         profile = PROFILES[flavour]
     item_want = {'variant': 50, 'exact': 20, 'absent': 15, 'any': 15}
@@ -830,12 +1107,14 @@ def gen_history(r, tier, flavour='classic'):
         item_want = {'variant': 35, 'exact': 50, 'absent': 5, 'any': 10}
         set_want = {'absent': 60, 'variant': 20, 'exact': 10, 'any': 10}
     nops = (r.randint(1, MAX_OPS[tier]) if flavour == 'classic' else
-            r.randint(1, UNI_MAX_OPS[tier]) if flavour == 'unicode' else r.randint(2, FLAVOUR_MAX_OPS))
+            r.randint(1, UNI_MAX_OPS[tier]) if flavour == 'unicode' else
+            r.randint(1, SPECIAL_MAX_OPS[tier]) if special else r.randint(2, FLAVOUR_MAX_OPS))
+    cycles = SPECIAL_CYCLES_B if flavour == 'blank-b' else SPECIAL_CYCLES if special else CYCLES
     ops = []
     vid = 0
     for _ in range(nops):
         kind = _weighted(r, profile)
-        if ((aimed or flavour == 'unicode') and ops and kind != 'copy' and r.random() < (0.35 if aimed else 0.12)
+        if ((aimed or flavour == 'unicode' or special) and ops and kind != 'copy' and r.random() < (0.35 if aimed else 0.12)
                 and (ops[-1][0] in REORDERS or ops[-1][0] == 'sort')):
             kind = 'copy'                      # a copy taken right after a re-ordering
         if kind == 'cycle' and cls != 'Deb822':
@@ -856,19 +1135,20 @@ def gen_history(r, tier, flavour='classic'):
                 ref = _pick(r, m, names, _want(r, item_want))
             op = [kind, k, ref]
         elif kind == 'sort':
-            op = ['sort', _sort_choice(r, flavour)]
+            op = ['sort', _sort_choice(r, 'unicode' if special else flavour)]
         elif kind == 'copy':
             op = _copy_choice(r, flavour, cls)
             cls = _class_after_copy(cls, op)
         elif kind == 'cycle':
-            op = ['cycle', r.choice(CYCLES)]
+            op = ['cycle', r.choice(cycles)]
         elif kind == 'pop':
             op = ['pop', _pick(r, m, names, _want(r, del_want)), r.random() < 0.4]
         elif kind == 'setdefault':
             op = ['setdefault', _pick(r, m, names, _want(r, set_want)), _value(r, vid)]
         else:
             op = ['update', [[_pick(r, m, names, _want(r, set_want)), _value(r, vid * 100 + j)]
-                             for j in range(r.randint(1, 3))], r.choice(['dict', 'pairs'])]
+                             for j in range(r.randint(1, 3))],
+                  r.choice(['dict', 'pairs', 'Deb822Dict'] if special else ['dict', 'pairs'])]
         ops.append(op)
         _apply_to_model(m, op)          # the generator only uses this to aim its next choice
     case = {'cls': cls_start, 'start': start, 'ops': ops}
@@ -981,6 +1261,105 @@ def uni_enum_cases(ctx):
                 yield {'cls': 'Deb822', 'start': st, 'ops': ops, 'enum': True, 'flavour': 'uni-enum'}
 
 
+# ---- round 9: the same enumerations over the blank-holding and the length-changing names ----------------------------
+# a/A, b/B, c/C of ENUM_OPS replaced.  ENUM_OPS lean on a/A (assign both, delete / move through the capital, the
+# self-relative order_before(A, a)), so every map puts another class there.
+SPECIAL_ENUM_MAPS = [
+    ('blank', {'a': 'x\xa0vcs', 'A': 'X\xa0Vcs', 'b': 'build\x1fid', 'B': 'Build\x1fId',
+               'c': '\u2003lead', 'C': '\u2003Lead'}),
+    ('dotted', {'a': 'x-i\u0307d', 'A': 'X-\u0130d', 'b': '\u0130', 'B': 'i\u0307',
+                'c': 'x-vcs-i\u0307', 'C': 'X-Vcs-\u0130'}),
+    ('blank-b', {'a': 'x\u2028vcs', 'A': 'X\u2028Vcs', 'b': '\x1clead', 'B': '\x1cLead',
+                 'c': 'trail\x85', 'C': 'Trail\x85'}),
+    ('mixed', {'a': 'TRAIL\u3000', 'A': 'trail\u3000', 'b': 'x-\u0130\xe9', 'B': 'X-\u0130\xc9',
+               'c': '\u1680LEAD', 'C': '\u1680lead'}),
+]
+SPECIAL_ENUM_STARTS = ENUM_STARTS + [
+    {'kind': 'parsed-bytes', 'pairs': [['A', 's0'], ['b', 's1']], 'sep': ': ', 'lead': ''},
+    {'kind': 'lazy', 'pairs': [['B', 's0'], ['a', 's1'], ['c', 's2']], 'sep': ': ', 'lead': ''},
+    {'kind': 'parsed-lines', 'pairs': [['c', 's0'], ['A', 's1']], 'sep': ':', 'lead': ''}]
+_BYTES_TWIN = {'parsed-str': 'parsed-bytes', 'lazy': 'lazy-bytes', 'iter': 'iter-bytes'}
+
+
+def special_enum_cases(ctx):
+    """ENUM_OPS over the round-9 names: all sequences of length <= SPECIAL_ENUM_LEN from 4 (quick) / 8 (thorough)
+    start states per map."""
+    idx = 0
+    for mi, (mname, mp) in enumerate(SPECIAL_ENUM_MAPS):
+        starts = []
+        for si, st in enumerate(SPECIAL_ENUM_STARTS):
+            if ctx.quick and si not in (0, 3, 4, 5 + mi % 3):
+                continue                        # quick: empty, dict of three, parsed from str, one more parsed kind
+            st = dict(st, pairs=[[mp[k], v] for k, v in st['pairs']])
+            if mname == 'blank-b':
+                st['kind'] = _BYTES_TWIN.get(st['kind'], st['kind'])
+            starts.append(st)
+        for length in range(1, SPECIAL_ENUM_LEN[ctx.tier] + 1):
+            for combo in itertools.product(range(len(ENUM_OPS)), repeat=length):
+                for st in starts:
+                    idx += 1
+                    if not ctx.mine(idx):
+                        continue
+                    ops = []
+                    for pos, oi in enumerate(combo):
+                        op = [mp.get(x, x) if i in (1, 2) and isinstance(x, str) else x
+                              for i, x in enumerate(ENUM_OPS[oi])]
+                        if op[0] == 'set':
+                            op[2] = 'v%d' % pos
+                        ops.append(op)
+                    yield {'cls': 'Deb822', 'start': st, 'ops': ops, 'enum': True, 'flavour': 'special-enum'}
+
+
+def special_sort_orders(tier):
+    """Fixed start orders (the same for every seed): blank-holding names and their twins; length-changing names and
+    their neighbours; then fixed shuffles over both."""
+    blank = ['X\xa0Vcs', 'XVcs', '\u2003Lead', 'Lead', 'Trail\u3000', 'build\x1fid', 'X-Vcs', 'x\u2003vcs', '\u2007']
+    dotted = ['X-\u0130d', 'x-Hd', 'X-jd', 'X-id', 'i\u0307stanbul', 'istanbul', 'D\u0130\u0130', 'x-vcs-i\u0307', 'a']
+    out = [blank, dotted]
+    pool = [g for g in BLANK_A_NAMES + BLANK_TWINS + DOTTED_NAMES + DOTTED_MIX]
+    rr = random.Random('C09/special-sort-orders')
+    while len(out) < SPECIAL_SORT_ORDERS[tier]:
+        o = [rr.choice(g) for g in rr.sample(pool, rr.randint(3, 9))]
+        if len(set(k.lower() for k in o)) == len(o) and o not in out:
+            out.append(o)
+    return out[:SPECIAL_SORT_ORDERS[tier]]
+
+
+def special_sort_cases(ctx):
+    """Every sort key x fixed start orders of the round-9 names x 4 start kinds; the script of uni_sort_cases."""
+    idx = 0
+    knames = sorted(SORT_KEYS)
+    pool = BLANK_A_NAMES + BLANK_TWINS + DOTTED_NAMES + DOTTED_MIX
+    for oi, order in enumerate(special_sort_orders(ctx.tier)):
+        for ki, kname in enumerate(knames):
+            for si, (cls, skind) in enumerate(SORT_ENUM_STARTS):
+                idx += 1
+                if not ctx.mine(idx):
+                    continue
+                st = {'kind': skind, 'pairs': [[k, 's%d' % i] for i, k in enumerate(order)]}
+                if skind in ('parsed-str', 'lazy'):
+                    st['sep'], st['lead'] = ': ', ''
+                have = set(k.lower() for k in order)
+                absent = [g for g in pool if g[0].lower() not in have]
+                newk = absent[(oi * 5 + ki) % len(absent)][-1]
+                rot = oi * 7 + ki * 3 + si
+
+                def variant(k, n):
+                    alts = [x for x in _group(pool, k) if x != k] or [k]
+                    return alts[n % len(alts)]
+                ops = [['sort', kname],
+                       ['copy', COPY_HOWS[rot % len(COPY_HOWS)], 'old'],
+                       ['last', variant(order[(ki + si) % len(order)], rot)],
+                       ['cycle', SPECIAL_CYCLES[rot % len(SPECIAL_CYCLES)]] if cls == 'Deb822' else ['copy', 'ctor', 'new'],
+                       ['set', newk, 'n%d' % ki],
+                       ['sort', kname],
+                       ['copy', COPY_OBJECTS[rot % len(COPY_OBJECTS)], 'new'],
+                       ['first', variant(order[(ki + 2 * si + 1) % len(order)], rot + 1)],
+                       ['del', variant(order[(ki + si + 2) % len(order)], rot + 2)],
+                       ['copy', COPY_HOWS[(rot + 9) % len(COPY_HOWS)], 'old']]
+                yield {'cls': cls, 'start': st, 'ops': ops, 'enum': True, 'flavour': 'special-sort'}
+
+
 def uni_sort_orders(tier):
     full = [g[0] for g in UNI_NAMES] + ['X-Epilogue', 'a']
     out = [full, full[::-1], sorted(full, key=lambda s: s.lower())]
@@ -1072,10 +1451,15 @@ def gen_bulk_start(r, names, cls):
     return st
 
 
-def gen_bulk_history(r, tier):
+def gen_bulk_history(r, tier, special=False):
     x = r.random()
     pool = NAMES[tier] if x < 0.6 else SORT_NAMES if x < 0.75 else UNI_ALPHABET
+    if special:
+        # round 9: names with blank-like characters (BLANK_A: every route is open to them) / of changing length
+        pool = _distinct_groups((BLANK_A_NAMES[:-3] + BLANK_TWINS) if x < 0.5 else (DOTTED_NAMES + DOTTED_MIX + BLANK_TWINS[:3]))
     names = r.sample(pool, r.choice([3, 4, 5, 6]))
+    if special and x >= 0.5 and not any(g in DOTTED_NAMES for g in names):
+        names[0] = r.choice(DOTTED_NAMES)
     cls_start = 'Deb822' if r.random() < 0.8 else 'Deb822Dict'
     start = gen_bulk_start(r, names, cls_start)
     m = CIListMap(start['pairs'])
@@ -1196,7 +1580,7 @@ def gen_bulk_history(r, tier):
         removal()
         for _ in range(r.randint(3, BULK_REUSE_OPS[tier])):
             emit(random_op(BULK_REUSE))
-    return {'cls': cls_start, 'start': start, 'ops': ops, 'flavour': 'bulk'}
+    return {'cls': cls_start, 'start': start, 'ops': ops, 'flavour': 'bulk-special' if special else 'bulk'}
 
 
 BULK_ENUM_STARTS = (('Deb822', 'empty'), ('Deb822', 'dict'), ('Deb822Dict', 'pairs'), ('Deb822', 'parsed-str'),
@@ -1296,15 +1680,33 @@ def _bulk_enum_ops(removal, script, K, V, fresh, fresh2, rot, from_empty):
     return ops
 
 
-def bulk_enum_cases(ctx):
+def special_bulk_enum_name_sets(tier):
+    """Round 9, seed-independent: round 0 blank-holding names (inside / start / end; fresh: a twin and another
+    blank), round 1 length-changing names (fresh: a plain-i twin and another one); the others from a fixed shuffle."""
+    def grp(first):
+        return _group(BLANK_A_NAMES + BLANK_TWINS + DOTTED_NAMES + DOTTED_MIX, first)
+    out = [[grp('X\xa0Vcs'), grp('\u2003Lead'), grp('Build\x1fId'), grp('XVcs'), grp('X\u2003Vcs')],
+           [grp('X-\u0130d'), grp('x-vcs-i\u0307'), grp('D\u0130\u0130'), grp('X-id'), grp('\u0130stanbul')]]
+    rr = random.Random('C09/special-bulk-enum-names')
+    pool = [g for g in BLANK_A_NAMES + DOTTED_NAMES + BLANK_TWINS + DOTTED_MIX if len(g) >= 2]
+    while len(out) < SPECIAL_BULK_ENUM_ROUNDS[tier]:
+        cand = _distinct_groups(rr.sample(pool, len(pool)))[:5]
+        if any(name_classes(g[0]) for g in cand[:3]):
+            out.append(cand)
+    return out[:SPECIAL_BULK_ENUM_ROUNDS[tier]]
+
+
+def bulk_enum_cases(ctx, name_sets=None, flavour='bulk-enum'):
     """Every start configuration x every removal script x BULK_ENUM_ROUNDS name sets (quick: each pair with one of
     the two name sets, alternating), followed by one of the two fixed re-use scripts (alternating)."""
     idx = 0
-    for ri, groups in enumerate(bulk_enum_name_sets(ctx.tier)):
+    for ri, groups in enumerate(name_sets if name_sets is not None else bulk_enum_name_sets(ctx.tier)):
         for si, (cls, skind) in enumerate(BULK_ENUM_STARTS):
             for mi, removal in enumerate(BULK_ENUM_REMOVALS):
                 if ctx.quick and (si + mi) % 2 != ri % 2:
                     continue                    # quick: each (start, removal) pair with ONE of the two name sets
+                if ctx.quick and name_sets is not None and (si + mi // 2) % 2 != ctx.seed % 2:
+                    continue                    # quick, round-9 name sets: half of the pairs, the other half with the next seed
                 idx += 1
                 if not ctx.mine(idx):
                     continue
@@ -1323,7 +1725,7 @@ def bulk_enum_cases(ctx):
                     if op[0] == 'copy':
                         cur = _class_after_copy(cur, op)
                     out.append(list(op))
-                yield {'cls': cls, 'start': st, 'ops': out, 'enum': True, 'flavour': 'bulk-enum'}
+                yield {'cls': cls, 'start': st, 'ops': out, 'enum': True, 'flavour': flavour}
 
 
 def tolerated_cases(ctx):
@@ -1346,11 +1748,32 @@ def cases(ctx):
                    len(SORT_KEYS), UNI_SORT_ORDERS[ctx.tier], len(SORT_ENUM_STARTS)),
         'bulk removal then re-use: %d start configurations x %d removal scripts x %d name sets, each followed by one '
         'of 2 fixed re-use scripts%s' % (len(BULK_ENUM_STARTS), len(BULK_ENUM_REMOVALS), BULK_ENUM_ROUNDS[ctx.tier],
-                                         ' (quick: each start x removal pair with one of the 2 name sets)' if ctx.quick else '')]
+                                         ' (quick: each start x removal pair with one of the 2 name sets)' if ctx.quick else ''),
+        'names with blank-like characters / case variants of different length: all operation sequences of length '
+        '1..%d over ENUM_OPS with a/b/c replaced by %d name maps (%s) from %d start states each; every one of the %d '
+        'sort keys x %d fixed start orders x %d start kinds; the bulk-removal enumeration over %d more name sets'
+        % (SPECIAL_ENUM_LEN[ctx.tier], len(SPECIAL_ENUM_MAPS), ', '.join(n for n, _ in SPECIAL_ENUM_MAPS),
+           4 if ctx.quick else len(SPECIAL_ENUM_STARTS), len(SORT_KEYS), SPECIAL_SORT_ORDERS[ctx.tier], len(SORT_ENUM_STARTS),
+           SPECIAL_BULK_ENUM_ROUNDS[ctx.tier])]
     if ctx.shard == 0:
         yield {'kind': 'repo-tests'}        # the repository's own tests under K1/K2, as one more workload
     for case in tolerated_cases(ctx):       # every shard (= under every ambient); counted, never judged
         yield case
+    # ---- round 9: names with blank-like characters / case variants of different length
+    for case in special_enum_cases(ctx):
+        yield case
+    for case in special_sort_cases(ctx):
+        yield case
+    for case in bulk_enum_cases(ctx, special_bulk_enum_name_sets(ctx.tier), 'special-bulk-enum'):
+        yield case
+    for flavour in SPECIAL_FLAVOURS:
+        r = ctx.rng('histories', flavour)
+        for _ in range(ctx.size(SPECIAL_HISTORIES[flavour]['quick'], SPECIAL_HISTORIES[flavour]['thorough'])):
+            yield gen_history(r, ctx.tier, flavour)
+    r = ctx.rng('histories', 'bulk-special')
+    for _ in range(ctx.size(SPECIAL_BULK_HISTORIES['quick'], SPECIAL_BULK_HISTORIES['thorough'])):
+        yield gen_bulk_history(r, ctx.tier, special=True)
+    # ----
     for case in bulk_enum_cases(ctx):
         yield case
     r = ctx.rng('histories', 'bulk')
@@ -1543,6 +1966,15 @@ def start_text(st):
     return ''.join(out)
 
 
+def nl_lines(text):
+    """The lines of a paragraph text, cut at \\n ONLY and keeping the \\n (what str.splitlines(True) gives for every
+    text of the older workloads).  A list of lines is the caller's own cut: the caller of a deb822 reader cuts at
+    \\n, not at the other boundaries str.splitlines() knows (FS / GS / RS, NEL, LS, PS), which are legal inside a
+    field name."""
+    parts = text.split('\n')
+    return [x + '\n' for x in parts[:-1]] + ([parts[-1]] if parts[-1] else [])
+
+
 def build_start(cls, st):
     kind = st['kind']
     pairs = [(k, v) for k, v in st['pairs']]
@@ -1559,14 +1991,18 @@ def build_start(cls, st):
     if kind == 'parsed-bytes':
         return cls(text.encode('utf-8'))
     if kind == 'parsed-lines':
-        return cls(text.splitlines(True))
-    if kind == 'iter':
-        paras = list(cls.iter_paragraphs(text))
+        return cls(nl_lines(text))
+    if kind == 'parsed-lines-bytes':
+        return cls(text.encode('utf-8').splitlines(True))
+    if kind in ('iter', 'iter-bytes'):
+        paras = list(cls.iter_paragraphs(text if kind == 'iter' else text.encode('utf-8')))
         if len(paras) != 1:
-            raise Mismatch('start-iter/paragraph-count', 'iter_paragraphs(%r) gave %d paragraphs' % (text, len(paras)))
+            raise Mismatch('start-%s/paragraph-count' % kind, 'iter_paragraphs(%r) gave %d paragraphs' % (text, len(paras)))
         return paras[0]
     if kind == 'lazy':
         return cls(_parsed=Deb822(text))
+    if kind == 'lazy-bytes':
+        return cls(_parsed=Deb822(text.encode('utf-8')))
     raise AssertionError(kind)
 
 
@@ -1577,9 +2013,11 @@ def reparse(cls, d, how, m):
     if how == 'bytes':
         return cls(text.encode('utf-8'))
     if how == 'lines':
-        return cls(text.splitlines(True))
-    if how == 'iter':
-        paras = list(cls.iter_paragraphs(text))
+        return cls(nl_lines(text))
+    if how == 'lines-bytes':
+        return cls(text.encode('utf-8').splitlines(True))
+    if how in ('iter', 'iter-bytes'):
+        paras = list(cls.iter_paragraphs(text if how == 'iter' else text.encode('utf-8')))
         if len(m) == 0 and not paras:
             return cls()
         if len(paras) != 1:
@@ -1593,6 +2031,15 @@ def reparse(cls, d, how, m):
         fd = io.StringIO()
         d.dump(fd, text_mode=True)
         return cls(fd.getvalue())
+    if how in ('file-bytes', 'file-text'):
+        # the file OBJECT is handed to the parser (it iterates over its lines)
+        fd = io.BytesIO() if how == 'file-bytes' else io.StringIO()
+        if how == 'file-bytes':
+            d.dump(fd)
+        else:
+            d.dump(fd, text_mode=True)
+        fd.seek(0)
+        return cls(fd)
     raise AssertionError(how)
 
 
@@ -1752,7 +2199,7 @@ def execute(rec, case):
     has_dump = case['cls'] == 'Deb822'
     st = case['start']
     ops = case['ops']
-    info = {'variant_use': False, 'restructured': False, 'uni_variant': False}
+    info = {'variant_use': False, 'restructured': False, 'uni_variant': False, 'special_variant': False}
     # order in which the names of the CURRENT live object were first inserted into it (lower-cased): what an
     # implementation that forgets a re-ordering falls back to.  A copy is "taken after a re-ordering" when the
     # model order differs from it at that moment.
@@ -1781,6 +2228,13 @@ def execute(rec, case):
         rec.count('start:%s' % st['kind'])
         if not all(k.isascii() for k in m.keys()):
             rec.count('uni:start:%s' % st['kind'])
+        sp_classes = set(c for k in m.keys() for c in name_classes(k))
+        for c in sp_classes:
+            rec.count('%s:start:%s' % (c, st['kind']))
+            rec.mon('M.' + c)
+        if sp_classes and st['kind'] not in ('empty', 'dict', 'pairs'):
+            for x in blank_chars_of(m.keys()):
+                rec.count('blank:parsed:U+%04X' % ord(x))      # a name holding this character came out of the parser
         rec.mon('M')
         bad = observe(d, m, universe, has_dump, rec)
         if bad:
@@ -1804,6 +2258,18 @@ def execute(rec, case):
                         info['uni_variant'] = True
                     else:
                         rec.count('uni:exact:%s' % role)
+                for c in name_classes(x):
+                    # round 9: a name with a blank-like character / with case variants of different length
+                    role = '%s-%s' % (kind, 'ref' if pos else 'item') if kind in ('before', 'after') else kind
+                    if not m.has(x):
+                        rec.count('%s:absent:%s' % (c, role))
+                    elif m.stored(x) != x:
+                        rec.count('%s:variant:%s' % (c, role))
+                        info['special_variant'] = True
+                        if c == 'dotted' and len(m.stored(x)) != len(x):
+                            rec.count('dotted:lenvariant:%s' % role)      # ... through a spelling of another LENGTH
+                    else:
+                        rec.count('%s:exact:%s' % (c, role))
             classify_reorder(rec, m, op)
             before_len = len(m)
             keys_before = m.keys()
@@ -1830,6 +2296,7 @@ def execute(rec, case):
                 rec.count('bulk:clear-then-update:%s' % op[2])
             prev_kind = kind
             n_uni = sum(1 for k in keys_before if not k.isascii())
+            sp_before = [c for k in keys_before for c in name_classes(k)]
             if kind == 'popitem' and before_len:
                 expect, value = 'ok', None          # WHICH member goes is not demanded: decided after the call
             else:
@@ -1850,6 +2317,33 @@ def execute(rec, case):
                     rec.count('uni:failed-op')
                     if expect == 'ValueError' and op[1] != op[2] and not op[1].isascii():
                         rec.count('uni:fail:self-relative-variant')
+            if sp_before:
+                # round 9 evidence: what the paragraphs holding the new names go through
+                for c in set(sp_before):
+                    if kind == 'sort' and len(keys_before) >= 2:
+                        rec.count('%s:sort:%s' % (c, 'default' if op[1] == 'default' else
+                                                  'stored-key' if op[1] in STORED_KEY_SORT_KEYS else 'caller-key'))
+                        if m.keys() != keys_before:
+                            rec.count('%s:sort:moved' % c)
+                    elif kind == 'copy':
+                        rec.count('%s:copy:%s' % (c, op[1]))
+                    elif kind == 'cycle':
+                        rec.count('%s:cycle:%s' % (c, op[1]))
+                    elif kind in ('clear', 'popitem', 'reinit'):
+                        rec.count('%s:%s' % (c, kind))
+                    if expect != 'ok':
+                        rec.count('%s:failed-op' % c)
+                if kind == 'cycle':
+                    for x in blank_chars_of(keys_before):
+                        rec.count('blank:cycled:U+%04X' % ord(x))  # a name holding this character went through dump -> parse
+                if expect == 'ValueError' and op[1] != op[2]:
+                    for c in name_classes(op[1]):
+                        rec.count('%s:fail:self-relative-variant' % c)
+                    if len(op[1]) != len(op[2]):
+                        rec.count('dotted:fail:self-relative-lenvariant')
+                if kind in ('set', 'setdefault') and len(m) == before_len and 'dotted' in name_classes(op[1]) \
+                        and len(m.stored(op[1])) != len(op[1]):
+                    rec.count('dotted:assign-through-lenvariant-adds-no-field')
             stored_key_sort = kind == 'sort' and op[1] in STORED_KEY_SORT_KEYS
             if kind in REORDERS or kind == 'sort':
                 if expect == 'ok' and m.keys() != keys_before:
@@ -2075,6 +2569,8 @@ def execute(rec, case):
                 rec.mon('M.failed-op')
             if n_uni or (kind in ('set', 'setdefault', 'update') and not all(k.isascii() for k in m.keys())):
                 rec.mon('M.uni')           # full observation of a paragraph holding non-ASCII field names
+            for c in set(c for k in m.keys() for c in name_classes(k)):
+                rec.mon('M.' + c)          # ... holding a name of a round-9 class (M.blank, M.blankb, M.dotted)
             if emptied_by is not None:
                 rec.mon('M.after-emptied')  # full observation of an object that has been emptied by a removal
                 if not len(m):
@@ -2206,18 +2702,35 @@ def run_tolerated(ctx, case):
         ctx.extra['tolerated_unspecified_observed'].append(line)
 
 
+def case_in_domain(case):
+    """Round 9 guard.  A name holding a str.splitlines() boundary (BLANK_B) cannot come through a route that hands the
+    paragraph text over as ONE str (the str is cut into lines there, by definition of "lines" of a str); such a
+    history is outside the judged domain whatever the tree does with it."""
+    names = [p[0] for p in case['start']['pairs']] + [k for op in case['ops'] for k in op_keys(op)]
+    if not any('blankb' in name_classes(k) for k in names):
+        return True
+    if case['start']['kind'] in STR_START_KINDS:
+        return False
+    return not any(op[0] == 'cycle' and op[1] in STR_CYCLES for op in case['ops'])
+
+
 def run_case(ctx, case):
     if case.get('kind') == 'repo-tests':
         from .. import repotests
         return repotests.run_repo_tests_under_monitors(ctx, ('K1', 'K2'))
     if case.get('kind') == 'tolerated':
         return run_tolerated(ctx, case)
+    if not case_in_domain(case):
+        ctx.count('skipped:outside-the-judged-domain')     # (a hand-written replay file; the generators never get here)
+        return
     kmon.reset()
     v, info = execute(ctx, case)
     if info['variant_use'] and info['restructured']:
         ctx.nontrivial(case)
         if info['uni_variant']:
             ctx.count('uni:nontrivial')
+        if info['special_variant']:
+            ctx.count('special:nontrivial')
     if v is None:
         return
     key, msg, nexec = v
@@ -2248,7 +2761,7 @@ LEVEL_TEXT = ('Runtime monitoring: seeded operation histories (state-aware gener
               'other object is emptied.  Held-on-observed, not a proof: reach is the generated histories.')
 LEVEL_NOTE = ('Trusted: CPython (incl. its Unicode case tables), vp.models.cimap (list model), the tolerant dump reader in '
               'the module.  Domain: field names that are ASCII or consist of letters with one-to-one lower/upper pairs on '
-              'which lower() and casefold() agree (sharp s, dotted/dotless i, final sigma are counted, not judged), values that are valid single/multi-line Deb822 values; parsed starts without duplicate '
+              'which lower() and casefold() agree, widened to every set of spellings on which lower() and casefold() induce the same equivalence (dotted capital I and its longer lower-case spelling included; sharp s, dotless i, final sigma are counted, not judged), names may hold the blank-like characters the field-name grammar accepts (those that are str.splitlines() boundaries only on byte / line-list routes), values that are valid single/multi-line Deb822 values; parsed starts without duplicate '
               'fields; order_before/after(k,k) with k absent may raise either error; which member popitem() removes is not demanded.')
 TECHNIQUE = ('runtime monitoring: history + executable list model at the public mapping interface (deciding monitor M, '
              'full state comparison after every operation incl. rejected ones); auxiliary contract/invariant monitors '
